@@ -388,7 +388,7 @@ Definition obj_step (st : obj_state) (p : pair_res) : obj_state :=
 
 Definition obj_of_pairs (ps : list pair_res) : val * list diag :=
   let '(vals, mks, known, ds) := fold_left obj_step ps ([], [], true, []) in
-  if negb known then (dyn_val, ds)
+  if negb known then (with_marks dyn_val (marks_unions mks), ds)
   else (with_marks (VObj vals) (marks_unions mks), ds).
 
 Lemma fold_left_map {A B S} (g : S -> B -> S) (h : A -> B) (l : list A) : forall s,
